@@ -7,9 +7,11 @@ import (
 	"fmt"
 	"hash/fnv"
 	"math/rand"
+	"regexp"
 	"sort"
 	"strings"
 	"sync"
+	"sync/atomic"
 	"time"
 )
 
@@ -102,7 +104,25 @@ type R struct {
 func NewR(sc Scenario) *R {
 	return &R{res: Result{Idx: sc.Idx, Kind: sc.Kind, Verdict: Held, Obs: map[string]int64{}}}
 }
+var hangRe = regexp.MustCompile(`hang|dropped|lost-call|blocked|not-closed|blocks|never`)
+var hangCount int64
+
+// ResetHangs is called at the start of every scenario.
+func ResetHangs() { atomic.StoreInt64(&hangCount, 0) }
+
+// eff shortens grace-sized waits once two hang-type violations have been recorded in the
+// running scenario: the verdict is established, further full grace periods only cost time.
+func eff(d time.Duration) time.Duration {
+	if d >= Grace && atomic.LoadInt64(&hangCount) >= 2 {
+		return 300 * time.Millisecond
+	}
+	return d
+}
+
 func (r *R) Violate(finger, format string, a ...interface{}) {
+	if hangRe.MatchString(finger) {
+		atomic.AddInt64(&hangCount, 1)
+	}
 	r.mu.Lock()
 	defer r.mu.Unlock()
 	if len(r.res.Viol) < 20 {
@@ -191,6 +211,7 @@ var Grace = 8 * time.Second
 
 // WaitCh waits for ch to be closed/receive or for the grace period.
 func WaitCh(ch <-chan struct{}, d time.Duration) bool {
+	d = eff(d)
 	select {
 	case <-ch:
 		return true
@@ -201,7 +222,7 @@ func WaitCh(ch <-chan struct{}, d time.Duration) bool {
 
 // Eventually polls cond until it is true or d expires.
 func Eventually(d time.Duration, cond func() bool) bool {
-	deadline := time.Now().Add(d)
+	deadline := time.Now().Add(eff(d))
 	for {
 		if cond() {
 			return true
